@@ -22,7 +22,8 @@ pub enum WEv {
   Write { blob_len: usize, to_single: Option<usize> },
   Dispose { key: u32 },
   AckNack { r: usize, base: i64, nbits: u32, members: Vec<i64>, fin: bool },
-  Match { r: usize, reliable: bool },
+  /// tl: the reader requests TransientLocal (only meaningful when the writer offers it)
+  Match { r: usize, reliable: bool, tl: bool },
   Unmatch { r: usize },
   HbTick,
   Clean,
@@ -73,11 +74,11 @@ pub fn gen_case(rng: &mut Rng, max_events: u64) -> WCase {
   match style {
     0 => {}
     1 => {
-      evs.push(WEv::Match { r: 0, reliable: false });
+      evs.push(WEv::Match { r: 0, reliable: false, tl: cfg.transient_local });
       matched[0] = true;
     }
     2 => {
-      evs.push(WEv::Match { r: 0, reliable: true });
+      evs.push(WEv::Match { r: 0, reliable: true, tl: cfg.transient_local });
       matched[0] = true;
       reliable[0] = true;
     }
@@ -85,7 +86,7 @@ pub fn gen_case(rng: &mut Rng, max_events: u64) -> WCase {
       for r in 0..NREADERS {
         if rng.chance(2, 3) {
           let rel = rng.chance(2, 3);
-          evs.push(WEv::Match { r, reliable: rel });
+          evs.push(WEv::Match { r, reliable: rel, tl: cfg.transient_local && !rng.chance(1, 3) });
           matched[r] = true;
           reliable[r] = rel;
         }
@@ -145,7 +146,7 @@ pub fn gen_case(rng: &mut Rng, max_events: u64) -> WCase {
           matched[r] = false;
         } else if style != 0 {
           let rel = if style == 1 { false } else { rng.chance(2, 3) };
-          evs.push(WEv::Match { r, reliable: rel });
+          evs.push(WEv::Match { r, reliable: rel, tl: cfg.transient_local && !rng.chance(1, 3) });
           matched[r] = true;
           reliable[r] = rel;
           acked[r] = 0;
@@ -215,6 +216,7 @@ pub fn run_case(case: &WCase, acc: &mut Acc, tag: &Value) -> WOutcome {
   let weid = wb.writer_entity_id();
   let own_prefix = wb.own_prefix;
   let mut rs: Vec<RShadow> = vec![RShadow::default(); NREADERS];
+  let mut history_floor: Vec<i64> = vec![0; NREADERS];
   let mut written: BTreeMap<i64, Written> = BTreeMap::new();
   let mut last_written = 0i64;
   let mut out = WOutcome { datagrams: 0, heartbeats: 0, answers_checked: 0, cleanings: 0, sig: 0 };
@@ -265,9 +267,11 @@ pub fn run_case(case: &WCase, acc: &mut Acc, tag: &Value) -> WOutcome {
         sigbuf.push(3);
         sent
       }
-      WEv::Match { r, reliable } => {
-        wb.match_reader(reader_guid(*r), *reliable, format!("127.0.0.1:{}", reader_port(*r)).parse().unwrap());
+      WEv::Match { r, reliable, tl } => {
+        wb.match_reader_d(reader_guid(*r), *reliable, *tl, format!("127.0.0.1:{}", reader_port(*r)).parse().unwrap());
         rs[*r] = RShadow { matched: true, reliable: *reliable, acked_base: 0 };
+        // what existed when the reader joined may be declared unavailable to it unless both sides are TransientLocal
+        history_floor[*r] = if *tl && case.cfg.transient_local { 0 } else { last_written };
         sigbuf.push(0x10 | *r as u8 | if *reliable { 8 } else { 0 });
         vec![]
       }
@@ -433,7 +437,8 @@ pub fn run_case(case: &WCase, acc: &mut Acc, tag: &Value) -> WOutcome {
               for sn in declared {
                 if hist.contains(&sn) {
                   let private_other = written.get(&sn).and_then(|w| w.to_single).map_or(false, |t| t != d);
-                  let volatile_old = !case.cfg.transient_local; // volatile writers gap history for late joiners
+                  // a Volatile writer, or any writer towards a Volatile reader, gaps what existed before the match
+                  let volatile_old = sn <= history_floor[d];
                   if !private_other && !volatile_old {
                     acc.violate("C04/answer:gap-covers-sample-still-held-for-that-reader", json!({"event": ei, "sn": sn, "to": d}), replay());
                     break;
